@@ -5,7 +5,7 @@ PROP = 'C19'
 TRANSLATORS = ['bitmap']
 RULE = ('capacities: powers of two 1…4096 (plus a malformed stream of non-powers, model-only); per case a random '
         'set/unset history over sequences drawn from [0, 3c) biased to word and capacity boundaries, every probe '
-        'answered by the real BitMap; exhaustive all-pairs set(a)/isset(b) for c ≤ 64; non-trivial = at least one '
+        'answered by the real BitMap; exhaustive all-pairs set(a)/isset(b) for c ≤ 64; concurrent cases: 2–3 scheduler-managed threads owning disjoint residue classes of one word;  non-trivial = at least one '
         'set followed by a probe of a different residue and of a congruent sequence; distinct = sha256 of the case text')
 ASSUMPTIONS = ['size_of::<AtomicU64>() = 8', 'sequence numbers and capacities < 2^64 (casts are value-preserving)',
                'sequential calls: fetch_or/fetch_and/load as atomic read-modify-write on a word']
@@ -47,12 +47,34 @@ def generate(rng, tier):
         if rng.random() < 0.2:
             ops.append(f'log2 {rng.choice([1, 2, 3, 63, 64, 65, 2**32, 2**63, 2**64 - 1, rng.randrange(1, 2**64)])}')
         yield Case(f'cap {c}', ops)
+    yield from conc_cases(rng, 60 if tier == 'quick' else 1500)
     # exhaustive small scope: every pair (a, b) in [0, 2c) for c ≤ 64 (quick: c ≤ 16)
     for c in ([1, 2, 4, 8, 16] if tier == 'quick' else [1, 2, 4, 8, 16, 32, 64]):
         for a in range(2 * c):
             ops = [f'set {a}'] + [f'isset {b}' for b in range(2 * c)] + [f'unset {a + c}'] + \
                   [f'isset {b}' for b in range(2 * c)]
             yield Case(f'cap {c}', ops, tags=('exhaustive-pairs',))
+
+
+def conc_cases(rng, count):
+    """concurrent part: 2–3 threads own disjoint residue classes (mostly inside one 64-bit word, so that a lost update
+    on the shared word would show) and issue set/unset calls under the deterministic scheduler"""
+    for _ in range(count):
+        c = rng.choice([2, 8, 64, 64, 128, 1024])
+        nthreads = rng.choice([2, 2, 3]) if c >= 3 else 2
+        residues = rng.sample(range(min(c, 64)), min(c, 64, nthreads * 2)) if c >= 4 else list(range(c))
+        ops = []
+        for t in range(nthreads):
+            own = residues[t::nthreads] or [residues[0]]
+            if t > 0 and own[0] == residues[0] and c < nthreads:
+                continue
+            for _ in range(rng.randrange(2, 7)):
+                r = rng.choice(own)
+                s = r + c * rng.randrange(0, 3)
+                ops.append((t, 'set' if rng.random() < 0.55 else 'unset', s))
+        rng.shuffle(ops)   # only the per-thread order matters
+        lines = [f't {t} {k} {s}' for (t, k, s) in ops] + ['go']
+        yield Case(f'conc cap {c} sched=random:{rng.randrange(1, 2**31)}:{rng.choice([0, 0, 64, 160])}', lines, tags=('concurrent',))
 
 
 def exhaustive_small():
@@ -62,7 +84,7 @@ def exhaustive_small():
 
 
 def classify(case):
-    c = int(case.header.split()[1])
+    c = int(case.header.split()[2] if case.header.startswith('conc') else case.header.split()[1])
     t = ['cap<64' if c < 64 else 'cap=64' if c == 64 else 'cap>64']
     if c & (c - 1):
         t.append('non-pow2(model-only)')
@@ -75,6 +97,8 @@ def classify(case):
 
 
 def nontrivial(case):
+    if case.header.startswith('conc'):
+        return len({o.split()[1] for o in case.ops if o.startswith('t ')}) >= 2
     return any(o.startswith('set ') for o in case.ops) and sum(1 for o in case.ops if o.startswith('isset ')) >= 2
 
 
